@@ -212,6 +212,40 @@ def jsonEncodeStreamChars (jf : String → String) : List Val → List Char
   | [] => []
   | v :: vs => jsonEncodeChars jf v ++ '\n' :: jsonEncodeStreamChars jf vs
 
+/-! ## the indented writer (`json-pretty`: `Encoder.SetIndent("", "  ")`) -/
+
+/-- a line break followed by the indentation of nesting level `lvl` (two spaces per level) -/
+def jsonNewline (lvl : Nat) : List Char := '\n' :: List.replicate (2 * lvl) ' '
+
+mutual
+/-- indented JSON text of a value at nesting level `lvl`: empty containers stay `[]` / `{}`, every
+    element / member starts a line one level deeper, `": "` separates key and value -/
+def jsonPrettyChars (jf : String → String) (lvl : Nat) : Val → List Char
+  | .list [] => ['[', ']']
+  | .list (x :: xs) =>
+    '[' :: (jsonNewline (lvl + 1) ++ (jsonPrettyChars jf (lvl + 1) x ++ jsonPrettyElemsTail jf lvl xs))
+  | .map [] => ['{', '}']
+  | .map ((k, v) :: rest) =>
+    '{' :: (jsonNewline (lvl + 1) ++ (jsonQuote k.toList ++ ':' :: ' ' ::
+      (jsonPrettyChars jf (lvl + 1) v ++ jsonPrettyMembersTail jf lvl rest)))
+  | v => jsonEncodeChars jf v
+/-- the remaining elements of an array opened at level `lvl`, and its closing bracket -/
+def jsonPrettyElemsTail (jf : String → String) (lvl : Nat) : List Val → List Char
+  | [] => jsonNewline lvl ++ [']']
+  | x :: xs => ',' :: (jsonNewline (lvl + 1) ++ (jsonPrettyChars jf (lvl + 1) x ++ jsonPrettyElemsTail jf lvl xs))
+/-- the remaining members of an object opened at level `lvl`, and its closing brace -/
+def jsonPrettyMembersTail (jf : String → String) (lvl : Nat) : Fields → List Char
+  | [] => jsonNewline lvl ++ ['}']
+  | (k, v) :: rest =>
+    ',' :: (jsonNewline (lvl + 1) ++ (jsonQuote k.toList ++ ':' :: ' ' ::
+      (jsonPrettyChars jf (lvl + 1) v ++ jsonPrettyMembersTail jf lvl rest)))
+end
+
+/-- json.go:jsonMarshalStreamPretty — each value indented, followed by a newline -/
+def jsonPrettyStreamChars (jf : String → String) : List Val → List Char
+  | [] => []
+  | v :: vs => jsonPrettyChars jf 0 v ++ '\n' :: jsonPrettyStreamChars jf vs
+
 /-! ## the decoder -/
 
 def jsonIsWs (c : Char) : Bool := c = ' ' || c = '\t' || c = '\n' || c = '\r'
@@ -348,6 +382,10 @@ def jsonEncode (jf : String → String) (v : Val) : String := String.ofList (jso
 /-- json.go:jsonMarshalStream -/
 def jsonEncodeStream (jf : String → String) (vs : List Val) : String :=
   String.ofList (jsonEncodeStreamChars jf vs)
+
+/-- json.go:jsonMarshalStreamPretty -/
+def jsonPrettyStream (jf : String → String) (vs : List Val) : String :=
+  String.ofList (jsonPrettyStreamChars jf vs)
 
 /-- json.go:jsonUnmarshalStream -/
 def jsonDecodeStream (fol : String → String) (s : String) : R (List Raw) :=
